@@ -128,9 +128,9 @@ class SymmetryDriver:
             c = cur[bi]
             used.add(bi)
             tol = self.tol
-            if abs(c['L'] - w['L']) > tol * max(w['L'], 1.0):
+            if not (abs(c['L'] - w['L']) <= tol * max(w['L'], 1.0)):
                 raise Divergence(where + ': path length', w['L'], c['L'])
-            if abs(c['tof'] - w['tof']) > tol * max(w['tof'], 1e-12):
+            if not (abs(c['tof'] - w['tof']) <= tol * max(w['tof'], 1e-12)):
                 raise Divergence(where + ': time of flight', w['tof'], c['tof'])
             # uniform / layered paths integrate the attenuation with a one-sided Riemann sum: not symmetric below ~1e-3
             att_tol = 5e-3 if not self.gradient else max(tol * 100, 1e-6)
